@@ -43,7 +43,7 @@ def cases(tier, seed):
             out.append(dict(c, k='step_multiple', sim=s, K=3, form='nsteps', keys=('name', 'wire')[len(out) % 2]))
             out.append(dict(c, k='vcd', sim=s, K=2))
             out.append(dict(c, k='print_trace', sim=s, K=3))
-    for kind_ in ('digits', 'mixed', 'odd', 'long'):
+    for kind_ in ('digits', 'mixed', 'odd', 'long', 'collide'):
         for s in SIMS:
             out.append({'fam': 'VCDN', 'kind': kind_, 'k': 'vcd', 'sim': s, 'K': 2, 'seed': len(out)})
             out.append({'fam': 'VCDN', 'kind': kind_, 'k': 'print_trace', 'sim': s, 'K': 3})
@@ -154,6 +154,8 @@ def build_vcdn(d):
     """names whose natural order (x2 < x10) differs from their lexicographic order, illegal VCD characters, distinct widths"""
     names = {'digits': ['x2', 'x10', 'y9', 'y12'], 'mixed': ['a10b2', 'a2b10', 'o1', 'o01x'], 'odd': ['q.1', 'q%', 'r[3]', 'r[12]'],
              # longer than any column of a report; the outputs agree in their first ten (and twenty) characters
+             # names that look like the identifiers print_vcd generates, next to names it has to replace (before and after them)
+             'collide': ['_vcd_tmp_0', 'a[0]', '_vcd_tmp_1', 'sum[0]'],
              'long': ['operand_number_one', 'operand_number_two', 'result_of_the_datapath_sum', 'result_of_the_datapath_xor']}[d['kind']]
     a, b = pyrtl.Input(2, names[0]), pyrtl.Input(3, names[1])
     o1, o2 = pyrtl.Output(4, names[2]), pyrtl.Output(5, names[3])
@@ -540,6 +542,11 @@ def do_vcd(case, ob, site):
             ob.prove('print_vcd-no-exception(%s)' % type(p.exc).__name__, z3.Not(p.cond()), list(r.pc), v, site=site + ':exception')
             continue
         widths, values = parse_vcd(p.result)
+        # (identifiers are what tells the value lines apart: two wires that share one cannot be decoded; the sanitizer's own
+        #  table is not taken at its word for this)
+        decl = [ln.split()[3] for ln in p.result.split('\n') if ln.startswith('$var') and ln.split()[3] != 'clk']
+        ob.fact('vcd-gives-every-traced-wire-its-own-identifier', len(decl) == len(tracked) and len(set(decl)) == len(decl) and len(names) == len(tracked),
+                site + ':identifiers', detail='%d traced wires, $var identifiers %r' % (len(tracked), decl))
         ob.fact('vcd-declares-every-traced-wire-once', sorted(widths) == sorted(names), site + ':vars', detail=[sorted(widths), sorted(names)])
         goals = []
         for ident, w in names.items():
